@@ -53,8 +53,27 @@ class RIB:
         if not adj_rib_in:
             self.incoming.clear()
 
-    def enable(self, new_name: str, adj_rib_in: bool, adj_rib_out: bool, families: set[FamilyTuple]) -> None:
-        """Enable a disabled RIB with proper name and settings."""
+    def enable(
+        self, new_name: str, adj_rib_in: bool, adj_rib_out: bool, families: set[FamilyTuple], staged: bool = False
+    ) -> None:
+        """Enable a disabled RIB with proper name and settings.
+
+        staged: the RIB is built for a configuration which is not accepted yet.  When a RIB of that name is in use
+        (a reload) its families and caches are left alone until commit(): a refused reload must not have dropped the
+        routes of a family, or the whole Adj-RIB-Out, of the running neighbor.
+        """
+        self._staged: tuple[bool, bool, set[FamilyTuple]] | None = None
+        if staged and new_name in self._cache:
+            old_name = self.name
+            if old_name in self._cache and old_name != new_name:
+                del self._cache[old_name]
+            self.name = new_name
+            self.enabled = True
+            cached_rib = self._cache[new_name]
+            self.incoming = cached_rib.incoming
+            self.outgoing = cached_rib.outgoing
+            self._staged = (adj_rib_in, adj_rib_out, families)
+            return
         # Remove old placeholder from cache
         old_name = self.name
         if old_name in self._cache:
@@ -91,6 +110,24 @@ class RIB:
 
         # Add/update cache with new name
         self._cache[new_name] = self
+
+    def commit(self) -> None:
+        """The configuration this RIB was staged for is accepted: apply its settings to the shared RIB."""
+        staged = getattr(self, '_staged', None)
+        if staged is None:
+            return
+        self._staged = None
+        adj_rib_in, adj_rib_out, families = staged
+        self.incoming.enabled = True
+        self.outgoing.enabled = True
+        self.incoming.families = families
+        self.outgoing.families = families
+        self.outgoing.delete_cached_family(families)
+        if not adj_rib_out:
+            self.outgoing.clear()
+        if not adj_rib_in:
+            self.incoming.clear()
+        self._cache[self.name] = self
 
     def reset(self) -> None:
         self.incoming.reset()
